@@ -9,9 +9,9 @@ A, B, C = "/'g'/'a'", "/'g'/'b'", "/'h'/'c'"
 # F4: windows family (C04 / C19 / C03 cross-section)
 # ---------------------------------------------------------------------------------------
 
-F4_OPTIONS = ['abs', 'nod', (1, 1), (2, 1), (1, 2), (2, 2), (3, 2), (2, 3)]
-F4_OPTIONS_SMALL = ['abs', 'nod', (2, 1), (1, 2), (2, 3)]
-F4_KINDS = ['int', 'il', 'str', 'strb', 'ts', 'daqmx']
+F4_OPTIONS = ['abs', 'nod', (1, 1), (2, 1), (1, 2), (2, 2), (3, 2), (2, 3), (4, 3)]
+F4_OPTIONS_SMALL = ['abs', 'nod', (2, 1), (1, 2), (2, 3), (4, 3)]
+F4_KINDS = ['int', 'intswap', 'il', 'str', 'strb', 'ts', 'daqmx']
 
 
 def daqmx_enc(n, scalers, widths, kind='fc', dtype='DaqMxRawData'):
@@ -19,10 +19,20 @@ def daqmx_enc(n, scalers, widths, kind='fc', dtype='DaqMxRawData'):
                       'widths': list(widths)}]
 
 
-def f4_segment(kind, opt):
+def f4_segment(kind, opt, si=0):
     """One segment of an F4 file: target channel A per `opt`, companion B always present."""
     present = isinstance(opt, tuple)
     n, chunks = opt if present else (1, 1)
+    if kind == 'intswap':
+        # same channels, listed in alternating order from segment to segment (new object list each time)
+        objs = [(B, ['FULL', 'Int16', n + 1])]
+        if present:
+            objs.append((A, ['FULL', 'Int32', n]))
+        elif opt == 'nod':
+            objs.append((A, ['NODATA']))
+        if si % 2:
+            objs = objs[::-1]
+        return G.seg(objs, chunks=chunks)
     if kind == 'int':
         objs = [(B, ['FULL', 'Int16', n + 1])]
         if present:
@@ -80,7 +90,7 @@ def f4_histories(kind, depth, options=None):
 
 
 def f4_build(kind, opts, seed=0):
-    hist = [f4_segment(kind, o) for o in opts]
+    hist = [f4_segment(kind, o, si) for si, o in enumerate(opts)]
     if kind == 'daqmx':
         for s in hist:
             done = False
